@@ -297,8 +297,10 @@ CLAIMS = {
              "correct), z3; inside the function marked no_sanitize(\"shift\") shifts follow x86-64/AArch64 semantics; IEEE division and "
              "int->double conversion are uninterpreted functions shared with the spec. Also under contract for this property: "
              "__Pyx_PyLong_{Eq,Ne}ObjC (contracts/compare.py) and the float-constant binops __Pyx_PyFloat_* (contracts/pyfloat_binop.py). "
+             "The call-site conditions themselves are discharged at their source: the gate of Optimize.optimise_numeric_binop (fragment "
+             "unit, all nodes and operators) lets a helper be selected only with |int constant| <= 2**30 and a non-zero constant divisor. "
              "NOT covered: And/Or/Xor (symbolic-symbolic bit operations), Multiply, the non-int operand paths of PyLongBinop, "
-             "Optimize.py's selection logic.",
+             "the second half of optimise_numeric_binop (helper name, extra arguments) and its callers.",
         ref="4 C02"),
     "C05": dict(
         text="Proof on the abstract CPython object model, for every C integer type of the matrix, that __Pyx_PyLong_As_<T> (compact, "
